@@ -99,6 +99,27 @@ def cutSummary (ns : List T) : Option (List Nat × Bool × Bool) :=
   | .ok r => some ((flatL r.1).map (·.id), r.2.1, r.2.2)
   | .error _ => none
 
+/-! ### What `IncludeHandler.enter_node` reports about a bounded include -/
+
+inductive CutDiag where
+  | reversed   -- "start-after text should precede end-before text"
+  | noStart    -- "Could not find specified start-after text"
+  | noEnd      -- "Could not find specified end-before text"
+deriving DecidableEq, Repr
+
+/-- `try: … = self.bound_included_AST(…)  except Exception: report it  else: report each wanted marker that was not found`.
+`wantS` / `wantE`: the directive has a `start-after` / `end-before` option. -/
+def cutDiags (wantS wantE : Bool) (ns : List T) : List CutDiag :=
+  match cutList ns with
+  | .error _ => [.reversed]
+  | .ok r => (if wantS && !r.2.1 then [.noStart] else []) ++ (if wantE && !r.2.2 then [.noEnd] else [])
+
+/-- the code before the repair: the two "not found" checks ran after the `except` as well, with both flags still `False` -/
+def cutDiagsOld (wantS wantE : Bool) (ns : List T) : List CutDiag :=
+  match cutList ns with
+  | .error _ => [.reversed] ++ (if wantS then [.noStart] else []) ++ (if wantE then [.noEnd] else [])
+  | .ok r => (if wantS && !r.2.1 then [.noStart] else []) ++ (if wantE && !r.2.2 then [.noEnd] else [])
+
 /-! ### Expansion with the circular-include guard -/
 
 /-- a document: plain nodes, and include directives naming a file -/
